@@ -252,8 +252,8 @@ STREAMS = [
 ]
 
 META = {
-    "level_text": "",
-    "level_note": "",
-    "technique": "",
+    "level_text": "placeholder",
+    "level_note": "placeholder",
+    "technique": "Coq proof + in-Coq replay of recorded delta calls + client-replica oracle",
     "design_ref": "5/C25",
 }
